@@ -5,12 +5,12 @@ from gym_gridverse.action import Action
 from gym_gridverse.envs.transition_functions import move_obstacles, teleport
 from gym_gridverse.geometry import Orientation, Position
 from gym_gridverse.grid_object import (Color, Exit, Floor, MovingObstacle,
-                                       Telepod, Wall)
+                                       NoneGridObject, Telepod, Wall)
 
 from ..runner import Obligation
 from ..stubs import ORS, SymRng, lazy_state, pre_held, same_object
 from ..symx import sym_and
-from .common import ACTIONS
+from .common import ACTIONS, post_cells
 
 PROPERTY = 'C11'
 LEVEL = 'other'
@@ -35,9 +35,24 @@ OBS3 = OBS4[:3]
 NEIGH = [(-1, 0), (0, 1), (1, 0), (0, -1)]
 
 
-def oracle_outcomes(layout, H, W):
-    """all possible final obstacle placements: set of tuples (final position per obstacle in row-major order of the start)"""
+def orders(start):
+    """processing orders of the obstacles that the oracle accepts (the property says "at its turn": no order is prescribed):
+    every permutation up to 4 obstacles, beyond that row-major / column-major and their reverses"""
+    if len(start) <= 4:
+        return [list(p) for p in itertools.permutations(start)]
+    col = sorted(start, key=lambda p: (p[1], p[0]))
+    out = []
+    for o in (list(start), list(reversed(start)), col, list(reversed(col))):
+        if o not in out:
+            out.append(o)
+    return out
+
+
+def oracle_outcomes(layout, H, W, order=None):
+    """all possible final obstacle placements for one processing order: set of tuples (final position per obstacle, in that order)"""
     start = [(y, x) for y in range(H) for x in range(W) if layout[y][x] == 'O']
+    if order is not None:
+        start = list(order)
 
     def rec(grid, k):
         if k == len(start):
@@ -73,7 +88,7 @@ def mk_obstacles(H, W, sigma, max_obstacles=None, all_actions=True):
         rng = SymRng(sx)
         pose0 = (state.agent.position.y, state.agent.position.x, state.agent.orientation)
         move_obstacles(state, a, rng=rng)
-        cells = state.grid.objects.cells
+        cells = post_cells(state)
         pre = [[world.make(y, x) for x in range(W)] for y in range(H)]
         layout = tuple(tuple(letter[world.label(y, x)] for x in range(W)) for y in range(H))
         post = [[cells[(y, x)] if (y, x) in cells else world.make(y, x) for x in range(W)] for y in range(H)]
@@ -82,9 +97,10 @@ def mk_obstacles(H, W, sigma, max_obstacles=None, all_actions=True):
         finals = [(y, x) for y in range(H) for x in range(W) if isinstance(post[y][x], MovingObstacle)]
         sx.check(len(finals) == len(start), 'obstacle-count', f'{start} -> {finals}')
         # global decision: the final placement must be one of the oracle's outcomes
-        oracle = oracle_outcomes(layout, H, W)
-        final_sets = {frozenset(o) for o in oracle}
-        sx.check(frozenset(finals) in final_sets, 'final-placement-is-a-legal-outcome', f'layout={layout} finals={finals}')
+        final_sets = set()
+        for order in orders(start):
+            final_sets |= {frozenset(o) for o in oracle_outcomes(layout, H, W, order)}
+        sx.check(frozenset(finals) in final_sets, 'final-placement-is-a-legal-outcome-of-some-processing-order', f'layout={layout} finals={finals}')
         # everything that is not an obstacle/floor swap is untouched; cells that lost/gained an obstacle became Floor/Obstacle
         for y in range(H):
             for x in range(W):
@@ -98,7 +114,7 @@ def mk_obstacles(H, W, sigma, max_obstacles=None, all_actions=True):
         sx.check(len({id(o) for o in obj}) == len(obj), 'no-duplicated-obstacle-instance')
         # agent untouched
         sx.check(sym_and(state.agent.position.y == pose0[0], state.agent.position.x == pose0[1]) and state.agent.orientation is pose0[2]
-                 and not state.agent.held_touched(), 'agent-untouched')
+                 and isinstance(state.agent.grid_object, NoneGridObject), 'agent-unchanged')
         # existential bookkeeping: which final placements occur on some feasible path
         key = ('obst', layout)
         sx.bag.setdefault(key, set()).add(frozenset(finals))
@@ -111,12 +127,21 @@ def mk_obstacles_finalize(H, W):
         for (tag, layout), seen in bag.items():
             if tag != 'obst':
                 continue
-            oracle = {frozenset(o) for o in oracle_outcomes(layout, H, W)}
-            missing = oracle - seen
+            start = [(y, x) for y in range(H) for x in range(W) if layout[y][x] == 'O']
+            # possibility: for SOME processing order every legal outcome of that order occurs on some path
+            best = None
+            for order in orders(start):
+                oracle = {frozenset(o) for o in oracle_outcomes(layout, H, W, order)}
+                miss = oracle - seen
+                if best is None or len(miss) < len(best):
+                    best = miss
+                if not miss:
+                    break
+            missing = best or set()
             if missing:
                 # confirm on the real function by exhausting scripted draws
                 reach = brute_obstacles(layout, H, W)
-                missing = oracle - reach
+                missing = missing - reach
                 if missing and len(out) < 5:
                     out.append(dict(label='possible-destination-never-taken', confirmed=True,
                                     message=f'layout={layout}: legal final placements never produced for any draw: {sorted(map(sorted, missing))[:3]}',
@@ -131,13 +156,27 @@ class ScriptRng:
     def __init__(self, script):
         self.script, self.i, self.arity = script, 0, []
 
-    def choice(self, n, *a, **k):
+    def _draw(self, n):
         if n <= 0:
             raise ValueError('a must be a positive integer unless no samples are taken')
         self.arity.append(n)
         v = self.script[self.i] if self.i < len(self.script) else 0
         self.i += 1
         return v
+
+    def choice(self, a, *args, **k):
+        if isinstance(a, int):
+            return self._draw(a)
+        seq = list(a)
+        return seq[self._draw(len(seq))]
+
+    def integers(self, low, high=None, size=None, dtype=int, endpoint=False):
+        if high is None:
+            low, high = 0, low
+        n = high - low + (1 if endpoint else 0)
+        if n <= 0:
+            raise ValueError('low >= high')
+        return low + self._draw(n)
 
 
 def brute_obstacles(layout, H, W):
@@ -187,10 +226,10 @@ def mk_teleport(H, W, sigma, max_telepods=None, all_actions=True):
         ny, nx = state.agent.position.y, state.agent.position.x
         py, px = int(py), int(px)
         here = world.make(py, px)
-        sx.check(state.agent.orientation is o and not state.agent.held_touched(), 'heading-and-held-untouched')
-        cells = state.grid.objects.cells
+        sx.check(state.agent.orientation is o and isinstance(state.agent.grid_object, NoneGridObject), 'heading-and-held-unchanged')
+        cells = post_cells(state)
         for k, q in cells.items():
-            sx.check(same_object(world.make(*k), q), 'grid-untouched')
+            sx.check(same_object(world.make(*k), q), 'grid-unchanged')
         if isinstance(here, Telepod):
             partners = [(y, x) for y in range(H) for x in range(W) if (y, x) != (py, px)
                         and isinstance(world.make(y, x), Telepod) and world.make(y, x).color is here.color]
@@ -205,7 +244,6 @@ def mk_teleport(H, W, sigma, max_telepods=None, all_actions=True):
         else:
             sx.cover('not-teleported', nontrivial=isinstance(here, Telepod))
             sx.check(sym_and(ny == py, nx == px), 'not-displaced-otherwise')
-            sx.check(rng.n == 0 or isinstance(here, Telepod), 'no-draw-when-not-on-telepod')
     return h
 
 
@@ -250,7 +288,11 @@ def teleport_finalize(bag):
 
 def obligations(tier):
     q = tier == 'quick'
-    obs = []
+    from .c18 import h_boundary_invalid, mk_boundary
+    obs = [Obligation('neighbourhood-distance-1', mk_boundary(1), dict(helper='geometry.get_manhattan_boundary', d=1, coordinates='unbounded integers')),
+           Obligation('neighbourhood-invalid-distance', h_boundary_invalid)]
+    if not q:
+        obs += [Obligation(f'neighbourhood-distance-{d}', mk_boundary(d), dict(d=d)) for d in (2, 3, 4)]
     for (H, W) in [(1, 1), (1, 2), (2, 1), (1, 3), (3, 1), (2, 2)]:
         obs.append(Obligation(f'move_obstacles-{H}x{W}-all-actions', mk_obstacles(H, W, OBS4), dict(H=H, W=W, alphabet=[e[0] for e in OBS4], actions='all', headings='all'),
                               finalize=mk_obstacles_finalize(H, W)))
